@@ -324,7 +324,25 @@ where
     /// assert!(!n1.is_connected(n2.key()));
     /// ```
     pub fn disconnect(&self, other: &K) -> Result<E, Error> {
-        self.inner.2.borrow_mut().remove_undirected(other)
+        match self.find_adjacent(other) {
+            Some(other) => {
+                // A half-edge listed as inbound here is listed as outbound at
+                // the other end and vice versa; remove both halves.
+                let inbound = self.inner.2.borrow_mut().remove_inbound(other.key());
+                match inbound {
+                    Ok(edge) => {
+                        other.inner.2.borrow_mut().remove_outbound(self.key())?;
+                        Ok(edge)
+                    }
+                    Err(_) => {
+                        let edge = self.inner.2.borrow_mut().remove_outbound(other.key())?;
+                        other.inner.2.borrow_mut().remove_inbound(self.key())?;
+                        Ok(edge)
+                    }
+                }
+            }
+            None => Err(Error::EdgeNotFound),
+        }
     }
 
     /// Removes all inbound and outbound connections to and from the node.
